@@ -153,6 +153,28 @@ func floatsEq(a, b []float64) bool {
 
 // c03CheckMain compares one result row of the main query with the reference. It returns the
 // name of the first disagreeing column.
+// c03CheckMainAll checks every column; the known stddev finding must not hide the columns
+// checked after it, so the stddev column is verified separately and the rest independently.
+func c03CheckMainAll(r Row, vals []ref.Val, withDisp bool) (fails [][2]string) {
+	if col, what := c03CheckMain(r, vals, withDisp); col != "" {
+		fails = append(fails, [2]string{col, what})
+		if strings.HasPrefix(col, "sd") {
+			// re-check with the stddev column neutralised
+			r2 := Row{}
+			for k, v := range r {
+				r2[k] = v
+			}
+			if xs := ref.Usable(vals); len(xs) > 0 {
+				r2["sd"] = ref.StdPop(xs)
+			}
+			if col2, what2 := c03CheckMain(r2, vals, withDisp); col2 != "" {
+				fails = append(fails, [2]string{col2, what2})
+			}
+		}
+	}
+	return fails
+}
+
 func c03CheckMain(r Row, vals []ref.Val, withDisp bool) (col, what string) {
 	xs := ref.Usable(vals)
 	bad := func(c string, want any) (string, string) {
@@ -501,9 +523,8 @@ func (c03) Run(u fw.Unit) fw.Result {
 						a.fail("C03|pairs|shape", "batch without exactly one row", cs, nil, r.Batches)
 						continue
 					}
-					if col, what := c03CheckMain(r.Batches[bi][0], c03RefVals(s), true); col != "" {
-						sig := c03Sig(cfg, col, c03RefVals(s))
-						a.fail(sig, fmt.Sprintf("batch %d: %s", bi+1, what), cs, nil, r.Batches[bi][0])
+					for _, f := range c03CheckMainAll(r.Batches[bi][0], c03RefVals(s), true) {
+						a.fail(c03Sig(cfg, f[0], c03RefVals(s)), fmt.Sprintf("batch %d: %s", bi+1, f[1]), cs, nil, r.Batches[bi][0])
 					}
 				}
 			})
@@ -575,7 +596,13 @@ func (c03) Run(u fw.Unit) fw.Result {
 				case "main":
 					vals = c03RefVals(s)
 					names = c03Names(s)
-					col, what = c03CheckMain(row, vals, true)
+					fs := c03CheckMainAll(row, vals, true)
+					if len(fs) > 0 {
+						col, what = fs[0][0], fs[0][1]
+					}
+					if len(fs) > 1 {
+						a.fail(c03Sig(cfg, fs[1][0], vals), fs[1][1], map[string]any{"cfg": cfg, "sql": sql, "batch": names, "direction": dir}, nil, row)
+					}
 				case "pct":
 					vals = c03RefVals(s)
 					names = c03Names(s)
